@@ -5,7 +5,17 @@ cd "$(dirname "$0")"
 export CARGO_NET_OFFLINE=true
 cp /repo/Cargo.lock harness/Cargo.lock
 python3 tools/gen_tables.py
-(cd harness && cargo build --release --offline 2>&1 | tail -3)
+BINS=$(python3 - <<'PY'
+import json
+en=open('checks/enabled.txt').read().split()
+bins=set()
+for p in en:
+    c=json.load(open(f'checks/{p}.json'))
+    for r in c.get('runs',[]): bins.add(r['bin'])
+print(' '.join('--bin '+b for b in sorted(bins)))
+PY
+)
+(cd harness && cargo build --release --offline $BINS 2>&1 | tail -3)
 MODS=$(python3 - <<'PY'
 import json,os
 en=open('checks/enabled.txt').read().split()
